@@ -286,6 +286,15 @@ fn run_case(i: u64, rng: &mut Rng, rep: &mut Report, verbose: bool) {
     let rt = runtime(rng.next());
     let progs = programs.clone();
     let reuse_tok = i * 1000 + 999;
+    let max_total_delay: u64 = programs
+        .iter()
+        .flatten()
+        .map(|op| match &op.spec {
+            OpSpec::Single { delay } => delay.unwrap_or(0),
+            OpSpec::Search { gaps, done_gap } => gaps.iter().sum::<u64>() + done_gap.unwrap_or(0),
+        })
+        .max()
+        .unwrap_or(0);
     let (results, ids, table_after, maps_after, reuse, drv) = rt.block_on(async move {
         let c = connect();
         let srv = tokio::spawn(timing_server(c.server));
@@ -304,8 +313,8 @@ fn run_case(i: u64, rng: &mut Rng, rep: &mut Report, verbose: bool) {
         for t in tasks {
             results.push(t.await.unwrap_or_default());
         }
-        // let every late reply arrive (the longest delay used is 2*3.6e6+5 ms)
-        tokio::time::sleep(Duration::from_secs(3 * 3600)).await;
+        // let every late reply arrive: wait longer than the longest cumulative delay of any operation
+        tokio::time::sleep(Duration::from_millis(max_total_delay + 60_000)).await;
         let mut ldap = c.ldap;
         let table_after = ldap.verif_id_table();
         let g = ldap.verif_gauges();
